@@ -585,7 +585,7 @@ impl Prop for C13 {
     fn evidence(&self, tier: Tier) -> EvidenceSpec {
         EvidenceSpec {
             level: "model_checking",
-            rule: "states = executions of the real `parse` under one complete assignment of iteration orders (a leaf of the choice tree), transitions = choice points answered; the explorer replays a prefix of permutation choices through hook H1 and takes the ascending order afterwards, records the arity n! met at each point and enumerates every alternative (stateless DFS, cap 300 / 5000 leaves per program, the number of capped trees is reported). Space: every group of k <= 3 definitions (thorough: also k = 4 at top level with d0 as the body, cap 48 leaves), each a literal, a lambda mentioning any subset of the group, or a non-value expression mentioning any subset, with each group variable as the body, at top level and nested in a called function. All leaves must be equal (verdict, diagnostics, order). For hash containers that no hook owns (none on the current tree), the whole pipeline (tokenize, parse, type check, evaluate) is repeated 5/12 times in process on every program of the multi-diagnostic family (all strings <= 5 over five symbols with lexical errors; 15625 groups of three definitions clashing with binders and each other and mentioning unbound names; 216 triples of ill-typed definitions; the definition-order family; the alias and nested-group families; dependent-type programs whose printed types mention their own binders and outer variables, 60 programs whose first definition is computed and chooses between later, mutually recursive functions (which the evaluator substitutes ahead of it), and the repository's examples): std gives every new container fresh keys, and every repetition must print the same thing (repeat-run differential, not exhaustive). Separately the real binary (hooks off) is launched 6/24 times on the examples and on multi-diagnostic programs for `check` and `run`; any byte difference between launches is a violation (repeat-run differential, not exhaustive). evaluations = programs + files; non-trivial = programs whose choice tree has more than one leaf".to_owned(),
+            rule: "states = executions of the real `parse` under one complete assignment of iteration orders (a leaf of the choice tree), transitions = choice points answered; the explorer replays a prefix of permutation choices through hook H1 and takes the ascending order afterwards, records the arity n! met at each point and enumerates every alternative (stateless DFS, cap 300 / 5000 leaves per program, the number of capped trees is reported). Space: every group of k <= 3 definitions (thorough: also k = 4 at top level with d0 as the body, cap 48 leaves), each a literal, a lambda mentioning any subset of the group, or a non-value expression mentioning any subset, with each group variable as the body, at top level and nested in a called function. All leaves must be equal (verdict, diagnostics, order). For hash containers that no hook owns (none on the current tree), the whole pipeline (tokenize, parse, type check, evaluate) is repeated 5/12 times in process on every program of the multi-diagnostic family (all strings <= 5 over five symbols with lexical errors; 15625 groups of three definitions clashing with binders and each other and mentioning unbound names; 216 triples of ill-typed definitions; the definition-order family; the alias and nested-group families; dependent-type programs whose printed types mention their own binders and outer variables, 60 programs whose first definition is computed and chooses between later, mutually recursive functions (which the evaluator substitutes ahead of it), and the repository's examples): std gives every new container fresh keys, and every repetition must print the same thing (repeat-run differential, not exhaustive). Separately the real binary (hooks off) is launched 6/24 times on the examples and on multi-diagnostic programs for `check` and `run`; any byte difference between launches is a violation (repeat-run differential, not exhaustive). evaluations = programs + files; non-trivial = programs whose choice tree has more than one leaf Also in the repeat-run differential: groups of three annotated definitions whose ANNOTATIONS are ill-typed pieces (several annotation diagnostics for one group, at top level and under binders), and every sentence of the class alphabet up to 5/6 tokens and of the conditional / definition slice of 6..8/9 tokens with two stray tokens inserted at every pair of positions (four pairs of kinds), tokenised and parsed three times with fresh hash keys (several recovery diagnostics, some on one node of the parse tree).".to_owned(),
             assumptions: vec![
                 "hook H1 owns the only iteration over a hash container that reaches an output (grep of non-test code); another site is visible only to the repeat-run differentials, which sample hash keys instead of enumerating orders".to_owned(),
                 "ordered containers pass through the hook unchanged, so a repaired tree has no choice points".to_owned(),
